@@ -1085,6 +1085,8 @@ harness(void) {
   } else {
     VP_ASSERT(rc == LDB_OK && g_apply_n == 1, "without errors the compaction succeeds and installs once");
   }
+  if (in_status != LDB_OK)
+    VP_ASSERT(rc != LDB_OK && g_apply_n == 0, "C02.g/C12 an error of the input iterator makes the compaction fail, nothing is installed (even when every entry seen was dropped)");
   if (rc != LDB_OK) {
     VP_ASSERT(g_apply_n == 0 || g_apply_rc != LDB_OK, "C02.g a failed compaction installed nothing");
     VP_ASSERT(db.bg_error != LDB_OK, "C12 a failed compaction latches the background error");
